@@ -3,6 +3,7 @@ C04 — following a file delivers every appended line once, in order.
 -/
 import DtailModel.Lemmas.Tail
 import DtailModel.Lemmas.GenStats
+set_option autoImplicit false
 namespace Dtail.C04
 open Dtail
 
